@@ -172,6 +172,7 @@ struct RunState
     std::size_t iteration = 0;
     std::size_t zero_iteration = ~std::size_t(0);
     T power = T(2);
+    T cut = T();                         // phase-space cut: the integrand is zero where all densities vanish (the weight is infinite there)
     std::vector<T> prev_weights, prev_data;
     std::vector<std::string> pending;    // judged on the main thread (rank threads only record)
 };
@@ -181,6 +182,7 @@ T run_f(hep::multi_channel_point<T> const& p)
 {
     RunState& r = *g_run;
     if (r.iteration == r.zero_iteration) return T();
+    if (p.coordinates()[0] < r.cut) return T();
     T v = T(1);
     for (T x : p.coordinates()) v *= (r.power + T(1)) * std::pow(x, r.power);
     return v;
@@ -255,8 +257,9 @@ void in_run(Rng& rng)
     std::size_t iters = rng.range(2, ctx().thorough ? 30 : 8);
     if (rng.below(2)) r.zero_iteration = rng.range(0, iters - 1);
     std::size_t calls = rng.range(100, 1500);
+    if (rng.below(3) == 0) { r.cut = map.cut = T(0.05L + 0.3L * rng.u01l()); count("runs_with_a_cut_where_all_densities_vanish"); }
     J info;
-    info.s("T", tname<T>::get()).u("channels", n).u("dims", dims).fv("a", map.a).f("jac", map.jac).s("weights_kind", wk).fv("user_weights", user)
+    info.f("cut", r.cut).s("T", tname<T>::get()).u("channels", n).u("dims", dims).fv("a", map.a).f("jac", map.jac).s("weights_kind", wk).fv("user_weights", user)
         .f("beta", beta).f("min_weight", minw).u("iterations", iters).u("calls", calls).f("integrand_power", r.power)
         .i("zero_iteration", r.zero_iteration == ~std::size_t(0) ? -1 : (long long)r.zero_iteration);
     typedef hep::multi_channel_chkpt_with_rng<std::mt19937, T> chk_t;
